@@ -3,7 +3,18 @@
 import json, os, sys
 here = os.path.dirname(os.path.dirname(os.path.abspath(__file__)))
 sys.path.insert(0, os.path.join(here, "tools"))
+sys.path.insert(0, here)
+import importlib
 import manifest_data as D
+
+for l in open(os.path.join(here, "properties.jsonl")):
+    pid = json.loads(l)["id"]
+    try:
+        mod = importlib.import_module("rules.%s" % pid.lower())
+    except ModuleNotFoundError:
+        continue
+    if hasattr(mod, "CLAIM") and pid not in D.CLAIMS:
+        D.CLAIMS[pid] = mod.CLAIM
 
 props = [json.loads(l) for l in open(os.path.join(here, "properties.jsonl"))]
 checks = []
